@@ -182,7 +182,9 @@ class JSONHandler(BaseHandler):
             raise errors.MediaNotFoundError('JSON')
         try:
             return self._loads(data.decode())
-        except ValueError as err:
+        except (ValueError, RecursionError) as err:
+            # NOTE: The stdlib decoder raises RecursionError for a document
+            #   that is nested too deeply; that is a malformed body as well.
             raise errors.MediaMalformedError('JSON') from err
 
     def deserialize(
